@@ -150,7 +150,10 @@ def respFields (status : Nat) (r : Resp) (serverTag : Option Bytes) : Option (Li
   -- size pre-pass over every non-blank header (also those omitted below), before
   -- anything is handed to the HPACK encoder
   let total := r.arr.foldl (fun a e => if e.key = [] ∨ e.value = [] then a
-                                        else a + e.key.length + e.value.length + 4) 14
+                                        else a + e.key.length + e.value.length + 4)
+                 (14 + 37 + (match serverTag with
+                             | some t => 6 + t.length + 4
+                             | none => 0))
   if total > 65535 then none else
   match bodyFields r.repeated r.arr 14 with
   | none => none
@@ -264,13 +267,16 @@ def EncGlue.sent (g : EncGlue) : EncGlue := { g with pending := false }
   priority fields were stripped).  Only what matters for the HPACK state is
   modelled: which blocks are decoded at all, served or discarded, and when the
   connection dies.  The content checks of http_request_parse_header() are not
-  modelled (a request it refuses is still decoded to the end). -/
+  modelled and do not matter here: a request it refuses is still decoded to the
+  end (h2_discard_headers_frame), and a decoding error there is a connection
+  error like anywhere else. -/
 
 /-- an active stream the connection still tracks (h2c->r[]) -/
 structure Stream where
   id : Nat
   isOpen : Bool        -- H2_STATE_OPEN (no END_STREAM yet), else HALF_CLOSED_REMOTE / CLOSED
   errored : Bool       -- r->state == CON_STATE_ERROR after an RST_STREAM was sent
+  pendingBody : Bool := false   -- Content-Length announced more than the DATA received so far
 deriving Repr, DecidableEq
 
 structure GConn where
@@ -294,10 +300,12 @@ deriving Repr, DecidableEq
 
 def maxStreams : Nat := 8
 
+/-- `rc == LSHPACK_ERR_BAD_DATA || 0 == lsx.name_len` ⇒ COMPRESSION_ERROR, else PROTOCOL_ERROR -/
 def errGoaway (e : Err) : Int :=
   match e with
-  | .badData => 9       -- H2_E_COMPRESSION_ERROR
-  | _ => 1              -- H2_E_PROTOCOL_ERROR
+  | .badData => 9
+  | .moreBufName => 9
+  | _ => 1
 
 /-- h2_send_goaway(): an error replaces a graceful GOAWAY, nothing replaces an error -/
 def setGoaway (c : GConn) (code : Int) : GConn :=
@@ -307,31 +315,31 @@ def setGoaway (c : GConn) (code : Int) : GConn :=
     let ss := if code = -1 then c.streams else c.streams.map fun (s : Stream) => { s with isOpen := false, errored := true }
     { c with goaway := code, streams := ss }
 
+/-- run the connection's one HPACK decoder over a header block (the loops of
+    h2_parse_headers_frame() / h2_discard_headers_frame()); a decoding error is a
+    connection error -/
+def decodeInto (cap : Nat) (c : GConn) (block : Bytes) : GConn :=
+  let r := decodeBlock cap c.dec block
+  let c := { c with dec := r.dec }
+  match r.err with
+  | none => c
+  | some e => setGoaway c (errGoaway e)
+
 /-- h2_discard_headers() -/
 def discardPath (cap : Nat) (c : GConn) (block : Bytes) : GConn :=
   if c.goaway > 0 then c
   else
     let c := { c with ndisc := c.ndisc + 1 }
     let c := if c.ndisc > 32 then setGoaway c 11 else c        -- H2_E_ENHANCE_YOUR_CALM
-    { c with dec := discardBlock cap c.dec block }
+    decodeInto cap c block
 
 def rstStream (c : GConn) (id : Nat) : GConn :=
   { c with streams := c.streams.map fun (s : Stream) => if s.id = id then { s with isOpen := false, errored := true } else s }
 
-/-- HPACK error of a block the request parser is reading: it counts (GOAWAY) only
-    while the parser still accepts fields; once http_request_parse_header()
-    refused field number `refuseAt` (400/431/...), h2_parse_headers_frame()
-    switches to h2_discard_headers_frame() for the rest, which stops silently.
-    `refuseAt` is an input of the model (the content rules are not modelled). -/
-def servedErr (r : BlockRes) (refuseAt : Option Nat) : Option Err :=
-  match r.err, refuseAt with
-  | some e, some k => if k < r.fields.length then none else some e
-  | e, _ => e
-
 /-- h2_recv_headers() on a merged frame: stream id, END_STREAM flag, PRIORITY
     stream dependency (if the flag is set), header block -/
 def recvHeaders (cap : Nat) (c : GConn) (id : Nat) (endStream : Bool) (dep : Option Nat)
-    (block : Bytes) (keep : Bool) (refuseAt : Option Nat := none) : GConn × Outcome :=
+    (block : Bytes) (keep : Bool) (pendingBody : Bool := false) : GConn × Outcome :=
   if id % 2 = 0 then (setGoaway c 1, .nothing)
   else if dep = some id ∧ id > c.cid then (setGoaway c 1, .nothing)
   else if id ≤ c.cid then
@@ -345,13 +353,13 @@ def recvHeaders (cap : Nat) (c : GConn) (id : Nat) (endStream : Bool) (dep : Opt
       else if ¬ endStream then
         let c := rstStream c id
         (discardPath cap c block, .discarded id (some 1))       -- H2_E_PROTOCOL_ERROR
+      else if s.pendingBody then
+        -- h2_recv_end_data(): Content-Length does not match the DATA received
+        let c := rstStream c id
+        (discardPath cap c block, .discarded id (some 1))
       else
         let c := { c with streams := c.streams.map fun (x : Stream) => if x.id = id then { x with isOpen := false } else x }
-        let r := decodeBlock cap c.dec block
-        let c := { c with dec := r.dec }
-        match servedErr r refuseAt with
-        | none => (c, .trailers id)
-        | some e => (setGoaway c (errGoaway e), .trailers id)
+        (decodeInto cap c block, .trailers id)
   else if c.goaway ≠ 0 then (discardPath cap c block, .discarded id none)
   else if c.streams.length = maxStreams then
     -- h2_send_refused_stream()
@@ -363,12 +371,10 @@ def recvHeaders (cap : Nat) (c : GConn) (id : Nat) (endStream : Bool) (dep : Opt
       let c := if c.nrefused > 16 then setGoaway c (-1) else c
       (discardPath cap c block, .discarded id (some 7))         -- H2_E_REFUSED_STREAM
   else
-    let r := decodeBlock cap c.dec block
-    let c := { c with dec := r.dec }
-    match servedErr r refuseAt with
-    | some e => (setGoaway { c with cid := id } (errGoaway e), .nothing)
+    let c' := decodeInto cap { c with cid := id } block
+    match (decodeBlock cap c.dec block).err with
+    | some _ => (c', .nothing)
     | none =>
-      let c := { c with cid := id }
-      (if keep then { c with streams := c.streams ++ [⟨id, !endStream, false⟩] } else c, .new id)
+      (if keep then { c' with streams := c'.streams ++ [⟨id, !endStream, false, pendingBody⟩] } else c', .new id)
 
 end LtVerif.H2Headers
